@@ -134,3 +134,30 @@ Example ex_gzip_model :
   grun g_init [GOpen 0; GReadAll 0; GReadMore 0; GOpen 1; GOpen 2; GReadMore 0; GReadAll 2; GReadAll 1; GReadMore 1]
   = [GNone; GOwn; GEof; GNone; GNone; GEof; GOwn; GOwn; GEof].
 Proof. vm_compute. reflexivity. Qed.
+
+(* ---- the handler-return barrier of a stream (Model/Barrier.v) ----
+   Every stream operation registers with a sync.WaitGroup and the serving function waits for the operations in flight
+   before it returns; a goroutine the handler left behind (the proxy's pump) may call a stream method while the
+   serving function is returning. An Add at counter zero concurrent with Wait is a misuse of the WaitGroup -- a data
+   race on the serving path (found by the race stress in the pinned code, repaired: findings, C13). *)
+From Larking Require Import Model.Barrier Proofs.BarrierProofs Gen.BarrierSkeleton.
+
+(* under the guarded discipline (an operation registers under the mutex and is refused once closed; the serving function
+   sets closed under the mutex before it waits) no schedule of operations, closes and waits misuses the WaitGroup *)
+Theorem C13_barrier_never_misused : forall es,
+  closes_before_wait false es = true -> misuse (brun true es) = false.
+Proof. exact guarded_barrier_safe. Qed.
+Print Assumptions C13_barrier_never_misused.
+
+(* the source follows that discipline at every Add and every Wait of every WaitGroup-owning type
+   (Gen/BarrierSkeleton.v is regenerated from larking/*.go on every run) *)
+Theorem C13_barrier_source_is_guarded : forallb btype_ok barrier_types = true.
+Proof. exact barrier_types_ok. Qed.
+Print Assumptions C13_barrier_source_is_guarded.
+
+(* the pinned discipline (Add at once, Wait at once) is misused on a three-event schedule: the handler has returned,
+   the serving function waits, the pump enters its next RecvMsg *)
+Theorem C13_pinned_barrier_refuted : exists es,
+  closes_before_wait false es = true /\ misuse (brun false es) = true.
+Proof. exact unguarded_barrier_refuted_even_with_close. Qed.
+Print Assumptions C13_pinned_barrier_refuted.
